@@ -104,4 +104,11 @@ theorem hardlinks_follow_targets (src : Str) (o : PackOpts) (w : World) (hov : o
 /-- times inside the representable range come back unchanged -/
 theorem mtime_restored (t : Int) (h1 : 0 ≤ t) (h2 : t ≤ 9223372036) : boundTime t = t := C05.clamp_identity t h1 h2
 
+
+/-- the order of the metadata phase is the code's: `createTarFile` asks for the owner first, then the
+    extended attributes, then the mode, then the times (regenerated from its source on every run) — the order
+    `applyMetaP` follows and `restore_order` needs: the chown clears set-id bits and capabilities, the calls
+    after it put them back -/
+theorem meta_order_is_generated : Facts.createMetaOrder = ["chown", "xattr", "chmod", "times"] := by decide
+
 end GA.C03
